@@ -514,29 +514,31 @@ func (s *State) findVerifiersForPathIfProtected(path string) ([]*SignatureVerifi
 				}
 				verifiers = append(verifiers, verifier)
 
-				if _, seen := seenRoles[delegation.ID()]; seen {
-					continue
-				}
-
 				if s.HasTargetsRole(delegation.ID()) {
-					delegatedMetadata, err := s.GetTargetsMetadata(delegation.ID(), true) // migrating is fine since this is purely a query, let's start using tufv02 metadata
-					if err != nil {
-						return nil, err
+					if _, seen := seenRoles[delegation.ID()]; !seen {
+						delegatedMetadata, err := s.GetTargetsMetadata(delegation.ID(), true) // migrating is fine since this is purely a query, let's start using tufv02 metadata
+						if err != nil {
+							return nil, err
+						}
+
+						seenRoles[delegation.ID()] = true
+
+						for principalID, principal := range delegatedMetadata.GetPrincipals() {
+							allPrincipals[principalID] = principal
+						}
+
+						// Add the current metadata's further delegations upfront to
+						// be depth-first
+						groupedDelegations = append([][]tuf.Rule{delegatedMetadata.GetRules()}, groupedDelegations...)
 					}
-
-					seenRoles[delegation.ID()] = true
-
-					for principalID, principal := range delegatedMetadata.GetPrincipals() {
-						allPrincipals[principalID] = principal
-					}
-
-					// Add the current metadata's further delegations upfront to
-					// be depth-first
-					groupedDelegations = append([][]tuf.Rule{delegatedMetadata.GetRules()}, groupedDelegations...)
 
 					if delegation.IsLastTrustedInRuleFile() {
 						// Stop processing current delegation group, but proceed
-						// with other groups
+						// with other groups. This holds even when the delegated
+						// rule file was already entered through another rule:
+						// whether the later rules of this file are trusted must
+						// not depend on the order in which rule files are
+						// reached.
 						break
 					}
 				}
